@@ -81,8 +81,8 @@ def plan(tier, seed):
             kw = dict(mode="rel", stored=["b", "pre"], shapes=["v311", "v5"], pass_miss=["ext"], user_miss=["unk"],
                       prekinds=["pingreq", "connect2"], workers=6)
             specs.append(spec("rel_" + a, "ascii", a, **kw))
-            # the same pack with the deviation `relpath` (the saved file is never the loaded one): nothing else may differ
-            specs.append(spec("reldev_" + a, "ascii", a, dev=["relpath"], **kw))
+            # (the pack with the deviation `relpath` - the saved file is never the loaded one - described the tree before 014f44a;
+            # the deviation stays in AuthGate.tla as a mutant of the model only)
             kw["mode"] = "relsame"
             specs.append(spec("relsame_" + a, "ascii", a, **kw))
         # the seed's algorithm once more with the deviation `authmethod_rejected`: behind the refused Authentication Method
@@ -185,11 +185,33 @@ def run(ctx):
         owed, lost, 100.0 * lost / owed if owed else 0.0, agg.get("after_failing_connack:broker_closed_connection", 0),
         agg.get("after_failing_connack:broker_closed_connection", 0) + agg.get("after_failing_connack:connection_left_open_50ms", 0)))
     seen = set()
+    unconfirmed = 0
     for d in alldivs:
         if d["signature"] in seen:
             continue
         seen.add(d["signature"])
-        ctx.violation(d["what"], {"signature": d["signature"], "kind": "authgate-transition", "pack": d["pack"], "algo": d["algo"],
-                                  "pwfile": d["mode"], "deviations": d["dev"], "meta": d["meta_file"], "transition": d.get("line"),
-                                  "observed": d.get("extra"),
-                                  "replay": "./check C19 quick --replay <this file>"})
+        art = {"signature": d["signature"], "kind": "authgate-transition", "pack": d["pack"], "algo": d["algo"],
+               "pwfile": d["mode"], "deviations": d["dev"], "meta": d["meta_file"], "transition": d.get("line"),
+               "observed": d.get("extra"), "replay": "./check C19 quick --replay <this file>"}
+        # a verdict rests on behaviour that repeats: the transition once more, alone, on a fresh broker (many brokers come and go
+        # while a pack is replayed; an answer must not be taken from a neighbour or from a broker that is shutting down).  What is
+        # reported as probabilistic (a CONNACK that did not arrive) gets 200 tries.
+        base = d["signature"].split(":with-deviation-")[0]
+        tries = 200 if ("without-connack" in base or "connack-lost" in base) else 2
+        again = False
+        if art["transition"] is not None and not d["dev"]:
+            for _ in range(tries):
+                _, divs2 = auth_lib.replay(ctx, dict(art, signature=base))
+                if any(x["signature"] == base for x in divs2):
+                    again = True
+                    break
+        else:
+            again = True      # (no transition attached / a deviation pack: reported as observed)
+        if not again:
+            unconfirmed += 1
+            ctx.cov["timing_unconfirmed"] = ctx.cov.get("timing_unconfirmed", 0) + 1
+            ctx.notes.append("not repeated alone (%d tries), not reported: %s: %s" % (tries, d["signature"], d["what"][:200]))
+            continue
+        ctx.violation(d["what"], art)
+    if unconfirmed > 5:
+        raise vlib.MachineryError("%d divergences of the bulk replay did not repeat alone: the run is not trustworthy" % unconfirmed)
